@@ -66,6 +66,10 @@ def gen(rng, count, quick):
                    it=rng.choice([3, 4]), dt=rng.choice([3, 4]))
         if imp == "res" and cfg["R"] == 500.0:
             cfg["I"] *= 2
+        if k % 6 == 1:
+            # many steps per period on a coarse grid with a mild current: the wake kick of ONE step is below 1e-3 cell
+            # everywhere, only the sum over a period balances the RF focusing
+            cfg.update(n=64, N=3000 if quick else rng.choice([3000, 4000]), td=3.0, T=14, I=IMPEDANCES[imp][1][0], dt=4, it=4)
         recs.append(cfg)
     return recs
 
